@@ -10,7 +10,7 @@ use crate::eventgen::{base32_digit, run_maps};
 use crate::evmodel::{encode_event, reference_assemble, BankSpec, Content, Expected, PadMsg};
 use crate::shash::with_hash_key;
 use alpha_g_physics::MainEvent;
-use daqmodel::enc::{chunk_message, readout_of_pad_channel, AdcSpec, PwbChannel, PwbSpec, TrgSpec};
+use daqmodel::enc::{chunk_message, ChunkSpec, readout_of_pad_channel, AdcSpec, PwbChannel, PwbSpec, TrgSpec};
 use serde::{Deserialize, Serialize};
 use serde_json::{json, Value};
 use simcore::driver::panic_site;
@@ -67,6 +67,9 @@ pub enum EvFault {
     /// every chunk header of message `msg` names ANOTHER known board (device id re-stamped, header
     /// CRC recomputed) while the bank names and the MAC inside the packet still agree with each other
     ChunkHeadersOtherBoard { msg: usize },
+    /// every chunk of message `msg` but its last one is lost, and that last chunk (id >= 1, end-of-message
+    /// flag) happens to carry bytes that read as a complete packet of the same board and chip
+    LoneTailChunkIsPacket { msg: usize, id: u16 },
     /// a PWB board that is not installed for this run sends pad data
     BoardNotInstalled,
     UnknownBank { name: String },
@@ -113,6 +116,7 @@ impl EvFault {
             EvFault::DupAndDropPadChunk { .. } => "dup_and_drop_pad_chunk",
             EvFault::DupPadChunkSameCrc { .. } => "dup_pad_chunk_same_crc_other_payload",
             EvFault::ChunkHeadersOtherBoard { .. } => "chunk_headers_name_another_board",
+            EvFault::LoneTailChunkIsPacket { .. } => "lone_tail_chunk_reads_as_a_packet",
             EvFault::BoardNotInstalled => "board_not_installed",
             EvFault::UnknownBank { .. } => "unknown_bank",
             EvFault::MalformedWire { .. } => "malformed_wire",
@@ -359,8 +363,10 @@ pub fn apply_fault(ev: &mut BuiltEvent, f: &EvFault, run: u32) -> bool {
                 let k = boards::adc_boards().iter().position(|x| x.name == cur).unwrap();
                 format!("C{}{}", boards::adc_boards()[(k + 1) % boards::adc_boards().len()].name, b[3] as char)
             } else {
-                let d = if b[3] == b'0' { 'V' } else { '0' };
-                format!("C{}{}", std::str::from_utf8(&b[1..3]).unwrap(), d)
+                // another channel of the same board that sends nothing in this event
+                let board = std::str::from_utf8(&b[1..3]).unwrap();
+                let d = "0V123456789ABCDEFGHIJKLMNOPQRSTU".chars().find(|&d| d as u8 != b[3] && !ev.banks.iter().any(|x| x.name == format!("C{board}{d}"))).unwrap_or(if b[3] == b'0' { 'V' } else { '0' });
+                format!("C{board}{d}")
             };
             if ev.banks.iter().any(|x| x.name == new) {
                 return false; // would also be a duplicate: keep faults single
@@ -505,6 +511,31 @@ pub fn apply_fault(ev: &mut BuiltEvent, f: &EvFault, run: u32) -> bool {
             let m = &ev.pad_idx[msg % ev.pad_idx.len()];
             let bi = m[chunk % m.len()];
             ev.banks[bi] = BankSpec { name: "TRBA".into(), content: Content::Opaque(vec![]) };
+            true
+        }
+        EvFault::LoneTailChunkIsPacket { msg, id } => {
+            if ev.pad_idx.is_empty() || *id == 0 {
+                return false;
+            }
+            let m = ev.pad_idx[msg % ev.pad_idx.len()].clone();
+            let mut whole = Vec::new();
+            let mut head: Option<ChunkSpec> = None;
+            for &bi in &m {
+                let Content::Chunk(c) = &ev.banks[bi].content else { return false };
+                whole.extend_from_slice(&c.payload);
+                head.get_or_insert_with(|| c.clone());
+            }
+            let Some(mut tail) = head else { return false };
+            if whole.is_empty() || whole.len() > 65535 {
+                return false;
+            }
+            tail.chunk_id = *id;
+            tail.flags = 1;
+            tail.payload = whole;
+            ev.banks[m[0]].content = Content::Chunk(tail);
+            for &bi in &m[1..] {
+                ev.banks[bi] = BankSpec { name: "TRBA".into(), content: Content::Opaque(vec![]) };
+            }
             true
         }
         EvFault::ChunkHeadersOtherBoard { msg } => {
@@ -794,6 +825,7 @@ pub fn all_faults(r: &mut Rng) -> Vec<EvFault> {
         EvFault::DupPadChunkSameCrc { msg: i, chunk: j },
         EvFault::ChunkHeadersOtherBoard { msg: i },
         EvFault::RenamePadBankToPresent { msg: i, chunk: j, other: i / 7 + j },
+        EvFault::LoneTailChunkIsPacket { msg: i, id: [1u16, 1, 2, 7, 65535][j % 5] },
     ]
 }
 
@@ -986,9 +1018,9 @@ impl Check for C10Check {
             let scn = Scn { base, fault: None, order_seeds: vec![0, r.next_u64() | 2], hash_keys: vec![r.next_u64()], pred: vec![] };
             return serde_json::to_value(scn).unwrap();
         }
-        // base event k = index / 38, fault slot = index % 38 (0 = none)
-        let k = index / 38;
-        let slot = (index % 38) as usize;
+        // base event k = index / 39, fault slot = index % 39 (0 = none)
+        let k = index / 39;
+        let slot = (index % 39) as usize;
         let base_seed = simcore::run_seed(simcore::driver::verif_seed(), "C10-base", k);
         let mut rb = Rng::new(base_seed);
         let run = RUNS[(k % RUNS.len() as u64) as usize];
